@@ -1,26 +1,66 @@
-#include <yaclib/async/make.hpp>
+// Replay driver (C02 / C12): a Task returned from a continuation must be started by that continuation and deliver the same Result as its eager twin.
+// argv[1] = case number or "all"; exit 1 on a wrong value, a crash is a crash.
+#include <yaclib/async/contract.hpp>
 #include <yaclib/async/future.hpp>
-#include <yaclib/lazy/schedule.hpp>
-#include <yaclib/lazy/make.hpp>
+#include <yaclib/async/make.hpp>
 #include <yaclib/exe/manual.hpp>
+#include <yaclib/lazy/make.hpp>
+#include <yaclib/lazy/schedule.hpp>
+
 #include <cstdio>
-int main(int argc, char** argv) {
-  int which = argc > 1 ? argv[1][0] - '0' : 0;
+#include <cstdlib>
+#include <cstring>
+
+static int run_case(int which) {
   auto manual = yaclib::MakeManual();
-  if (which == 0) {
-    auto f = yaclib::MakeFuture(1).ThenInline([](int x) { return yaclib::MakeTask(x + 1); });
-    std::fprintf(stderr, "MakeTask inner: %d\n", std::move(f).Get().Ok());
-  } else if (which == 1) {
-    auto f = yaclib::MakeFuture(1).ThenInline([](int x) { return yaclib::Schedule([x] { return x + 1; }); });
-    std::fprintf(stderr, "Schedule inner: %d\n", std::move(f).Get().Ok());
-  } else if (which == 2) {
-    auto f = yaclib::MakeFuture(1).ThenInline([&](int x) { return yaclib::Schedule(*manual, [x] { return x + 1; }).ThenInline([](int y) { return y * 2; }); });
-    std::fprintf(stderr, "before drain ready=%d\n", (int)f.Ready());
-    (void)static_cast<yaclib::ManualExecutor&>(*manual).Drain();
-    std::fprintf(stderr, "Schedule(e)+Then inner: %d\n", std::move(f).Get().Ok());
-  } else if (which == 3) {
-    auto f = yaclib::MakeFuture(1).ThenInline([](int x) { return yaclib::LazyContract<int>([x](yaclib::Promise<int> p) { std::move(p).Set(x + 5); }); });
-    std::fprintf(stderr, "LazyContract inner: %d\n", std::move(f).Get().Ok());
+  auto& m = static_cast<yaclib::ManualExecutor&>(*manual);
+  int got = -1, want = -2;
+  switch (which) {
+    case 0: {
+      auto f = yaclib::MakeFuture(1).ThenInline([](int x) { return yaclib::MakeTask(x + 1); });
+      got = std::move(f).Get().Ok(); want = 2;
+    } break;
+    case 1: {
+      auto f = yaclib::MakeFuture(1).ThenInline([](int x) { return yaclib::Schedule([x] { return x + 1; }); });
+      got = std::move(f).Get().Ok(); want = 2;
+    } break;
+    case 2: {
+      auto f = yaclib::MakeFuture(1).ThenInline([&](int x) { return yaclib::Schedule(*manual, [x] { return x + 1; }).ThenInline([](int y) { return y * 2; }); });
+      if (f.Ready()) { std::fprintf(stderr, "case 2: ready before the executor ran the head\n"); return 1; }
+      (void)m.Drain();
+      got = std::move(f).Get().Ok(); want = 4;
+    } break;
+    case 3: {
+      auto f = yaclib::MakeFuture(1).ThenInline([](int x) { return yaclib::LazyContract<int>([x](yaclib::Promise<int> p) { std::move(p).Set(x + 5); }); });
+      got = std::move(f).Get().Ok(); want = 6;
+    } break;
+    case 4: {  // head whose functor itself returns a Future
+      auto f = yaclib::MakeFuture(1).ThenInline([&](int x) { return yaclib::Schedule(*manual, [x] { return yaclib::MakeFuture(x + 7); }).ThenInline([](int y) { return y + 1; }); });
+      (void)m.Drain();
+      got = std::move(f).Get().Ok(); want = 9;
+    } break;
+    case 5: {  // head whose functor returns a Task
+      auto f = yaclib::MakeFuture(1).ThenInline([&](int x) { return yaclib::Schedule(*manual, [x] { return yaclib::MakeTask(x + 3); }); });
+      (void)m.Drain();
+      got = std::move(f).Get().Ok(); want = 4;
+    } break;
+    case 6: {  // a connected promise after the contract core started: forwarding role of PromiseCore::Here
+      auto [f0, p0] = yaclib::MakeContract<int>();
+      auto f = yaclib::MakeFuture(1).ThenInline([&, ff = std::move(f0)](int) mutable {
+        return yaclib::LazyContract<int>([ff = std::move(ff)](yaclib::Promise<int> p) mutable { std::move(ff).DetachInline([p = std::move(p)](yaclib::Result<int> r) mutable { std::move(p).Set(std::move(r)); }); });
+      });
+      std::move(p0).Set(11);
+      got = std::move(f).Get().Ok(); want = 11;
+    } break;
+    default: return 0;
   }
-  return 0;
+  std::fprintf(stderr, "case %d: got %d, want %d\n", which, got, want);
+  return got == want ? 0 : 1;
+}
+
+int main(int argc, char** argv) {
+  if (argc > 1 && std::strcmp(argv[1], "all") != 0) return run_case(std::atoi(argv[1]));
+  int bad = 0;
+  for (int i = 0; i <= 6; ++i) bad |= run_case(i);
+  return bad;
 }
